@@ -246,53 +246,26 @@ def run(ctx, report):
                 caught.add(u(h.type))
     check_sites(R1, arch, dis, 'x86_mn._dis', D, caught_exc=caught)
 
-    imm_kinds = set()
-    ipm = arch.method('x86allmncs', 'init_pre_modrm')
-    ev0 = Evaluator(dict(D.base))
-    for n in ast.walk(ipm):
-        if isinstance(n, ast.Dict):
-            for k, v in zip(n.keys, n.values):
-                if k is not None and u(k) == 'x86_afs.imm':
-                    try:
-                        imm_kinds.add(ev0.ev(v))
-                    except NotConst:
-                        imm_kinds.add('?' + u(v))
-        if isinstance(n, ast.Assign) and isinstance(n.targets[0], ast.Subscript) and u(n.targets[0].slice) == 'x86_afs.imm':
-            try:
-                imm_kinds.add(ev0.ev(n.value))
-            except NotConst:
-                for alt in ast.walk(n.value):
-                    pass
-                imm_kinds.add('?' + u(n.value))
-    # my_imm = s08 / u16 assigned then stored: resolve simple locals
-    loc = {}
-    for n in ast.walk(ipm):
-        if isinstance(n, ast.Assign) and isinstance(n.targets[0], ast.Name):
-            try:
-                loc.setdefault(n.targets[0].id, set()).add(ev0.ev(n.value))
-            except NotConst:
-                pass
-    resolved = set()
-    for k in imm_kinds:
-        if isinstance(k, str) and k.startswith('?') and k[1:] in loc:
-            resolved |= loc[k[1:]]
-        else:
-            resolved.add(k)
-    imm_kinds = resolved
+    _afs_tables = {}
 
     def get_afs_special(kind, node, conds):
-        # a raise in get_afs is dead iff get_afs, evaluated on every displacement kind the ModRM tables hold (under both address sizes, with and without a SIB byte), returns
+        # a raise in get_afs is dead iff get_afs, evaluated from its source on every ModRM byte (and two SIB bytes) of the four tables init_pre_modrm builds (evaluated
+        # statically, not read from its text), returns an operand
         if kind != 'raise':
             return None
-        if any(isinstance(k, str) and k.startswith('?') for k in imm_kinds):
-            return 'reachable', 'displacement kinds of init_pre_modrm are not statically evaluable: %s' % sorted(map(str, imm_kinds))
-        for k in sorted(imm_kinds, key=str):
-            for mode_name in ('u32', 'u16'):
-                for sib in (False, True):
-                    r = X.get_afs_eval(k, mode_name, sib)
-                    if r[0] == 'raises':
-                        return 'reachable', 'init_pre_modrm stores the displacement kind %s, on which get_afs raises %s' % (k, r[1])
-        return 'dead', 'get_afs returns on every displacement kind stored by init_pre_modrm %s' % sorted(map(str, imm_kinds))
+        if 'r' not in _afs_tables:
+            bad_, n_ = None, 0
+            for mode_name in ('u32', 'u16', 'mm', 'xmm'):
+                for m_, sib_, used_, got_, entry_ in X.get_afs_on_tables(mode_name):
+                    n_ += 1
+                    if isinstance(got_, str) and got_.startswith('raises') and bad_ is None:
+                        bad_ = (mode_name, m_, sib_, got_, entry_)
+            _afs_tables['r'] = (bad_, n_)
+        bad_, n_ = _afs_tables['r']
+        if bad_:
+            return 'reachable', 'under %s addressing the ModRM byte %02X%s selects the table entry %s, on which get_afs %s' % (
+                bad_[0], bad_[1], (' with SIB %02X' % bad_[2]) if bad_[2] is not None else '', dict((str(k_), str(v_)) for k_, v_ in bad_[4].items()), bad_[3].replace(':', ' '))
+        return 'dead', 'get_afs returns an operand for every one of the %d (ModRM, SIB) pairs of the four tables init_pre_modrm builds' % n_
     check_sites(R1, arch, arch.method('x86allmncs', 'get_afs'), 'x86allmncs.get_afs', D, special=get_afs_special)
 
     def get_im_fmt_special(kind, node, conds):
